@@ -4,6 +4,7 @@ import (
 	"math"
 	"os"
 	"path/filepath"
+	"strconv"
 	"strings"
 
 	"github.com/tdewolff/canvas"
@@ -117,6 +118,75 @@ func genC11ParsePath(r *core.Rng) any {
 	return &c11Case{S: s, Mode: "parse-path", Kind: "parse-path"}
 }
 
+// genC11ParseValid writes valid SVG path data by hand, with every command letter in both cases,
+// implicit repetition of commands, chains of smooth curves (S after C/S, T after Q/T, and S/T after
+// other commands, where the control point is the current point) and mixed separators. Coordinates
+// have at most three decimals so that the written text is the exact input of both parsers.
+func genC11ParseValid(r *core.Rng) any {
+	var sb strings.Builder
+	num := func() string {
+		v := math.Round(r.Range(-40, 40)*8) / 8
+		if r.Chance(0.3) {
+			v = float64(r.IntRange(-20, 20))
+		}
+		return strconv.FormatFloat(v, 'f', -1, 64)
+	}
+	sep := func() string { return core.PickS(r, []string{" ", ",", " , ", "\n"}) }
+	nums := func(n int) {
+		for i := 0; i < n; i++ {
+			if i > 0 {
+				sb.WriteString(sep())
+			}
+			sb.WriteString(num())
+		}
+	}
+	up := func(c byte) byte {
+		if r.Bool() {
+			return c
+		}
+		return c + 'a' - 'A'
+	}
+	sb.WriteByte(up('M'))
+	nums(2)
+	last := byte('M')
+	for k, n := 0, r.IntRange(2, 12); k < n; k++ {
+		var c byte
+		switch {
+		case (last == 'Q' || last == 'T') && r.Chance(0.6):
+			c = 'T'
+		case (last == 'C' || last == 'S') && r.Chance(0.6):
+			c = 'S'
+		default:
+			c = "LLHVCSQTAZM"[r.Intn(11)]
+		}
+		if c == 'Z' && (last == 'M' || last == 'Z') {
+			c = 'L' // a Close directly after a MoveTo is finding F-C10-moveto-close
+		}
+		implicit := c == last && c != 'Z' && c != 'M' && r.Chance(0.5)
+		if !implicit {
+			sb.WriteByte(up(c))
+		} else {
+			sb.WriteString(sep())
+		}
+		switch c {
+		case 'M', 'L', 'T':
+			nums(2)
+		case 'H', 'V':
+			nums(1)
+		case 'C':
+			nums(6)
+		case 'S', 'Q':
+			nums(4)
+		case 'A':
+			sb.WriteString(strconv.Itoa(r.IntRange(1, 30)) + sep() + strconv.Itoa(r.IntRange(1, 30)) + sep() + core.PickS(r, []string{"0", "30", "45", "90", "-20"}) + sep())
+			sb.WriteString(core.PickS(r, []string{"0", "1"}) + sep() + core.PickS(r, []string{"0", "1"}) + sep())
+			nums(2)
+		}
+		last = c
+	}
+	return &c11Case{S: sb.String(), Mode: "parse-valid", Kind: "parse-valid"}
+}
+
 var c11SVGFiles []string
 
 func loadSVGFiles() {
@@ -219,6 +289,24 @@ func subsDev(a, b []geom.Sub) (dev float64, structural bool, at Pt) {
 	return h2, false, at2
 }
 
+// c11NonEmpty drops zero-length lines (H0, "l0 0": they trace nothing) and sub-paths left without segments.
+func c11NonEmpty(subs []geom.Sub) []geom.Sub {
+	var out []geom.Sub
+	for _, s := range subs {
+		t := geom.Sub{Start: s.Start, Closed: s.Closed}
+		for _, sg := range s.Segs {
+			if sg.Kind == geom.Line && sg.P0 == sg.P3 {
+				continue
+			}
+			t.Segs = append(t.Segs, sg)
+		}
+		if len(t.Segs) > 0 {
+			out = append(out, t)
+		}
+	}
+	return out
+}
+
 func c11Check(ci any, o *core.Obs) {
 	c := ci.(*c11Case)
 	checkGlobals(o)
@@ -236,6 +324,55 @@ func c11Check(ci any, o *core.Obs) {
 		}
 		if err == nil && p != nil {
 			o.Count("parsed_ok", 1)
+		}
+		return
+	case "parse-valid":
+		ref, rerr := refsyn.ParseSVGPath(c.S)
+		if rerr != nil {
+			o.Skip("the reference parser rejects the generated path data: " + rerr.Error())
+			return
+		}
+		var p *canvas.Path
+		var err error
+		if !o.Call("ParseSVGPath", func() { p, err = canvas.ParseSVGPath(c.S) }) {
+			return
+		}
+		o.NonTrivial()
+		o.Decided(1)
+		if err != nil {
+			o.Fail("parse-valid", "ParseSVGPath(%q) fails with %v on valid path data", c.S, err)
+			return
+		}
+		got, derr := refSubs(p)
+		if derr != nil {
+			o.Fail("parse-valid", "ParseSVGPath(%q) returned undecodable data: %v", c.S, derr)
+			return
+		}
+		for _, sub := range ref {
+			if sub.Closed && len(c11NonEmpty([]geom.Sub{sub})) == 0 {
+				// "M x y h0 z": the builder removes a MoveTo that is closed without a segment, and what
+				// follows starts elsewhere: finding F-C10-moveto-close, not explored here
+				o.Skip("a sub-path closed without a segment of non-zero length (F-C10-moveto-close)")
+				return
+			}
+		}
+		ref, got = c11NonEmpty(ref), c11NonEmpty(got)
+		if len(ref) == 0 && len(got) == 0 {
+			return
+		}
+		box := geom.BoxPolys(geom.Flatten(ref, 1e-2, false))
+		dev, structural, at := subsDev(ref, got)
+		// zero-length and collinear segments may be dropped or merged by the builder: then the point sets
+		// are compared instead (Hausdorff), with the tolerance of its sampling
+		tol := 1e-9 * (1 + box.Scale())
+		if strings.ContainsAny(c.S, "Aa") {
+			tol = 1e-6 * (1 + box.Scale()) // radii correction and centre conversion of arcs in both parsers
+		}
+		if !structural {
+			tol = 1e-4 * (1 + box.Scale())
+		}
+		if dev > tol {
+			o.Fail("parse-valid", "ParseSVGPath(%q) = %s is %.4g away (near %v) from the geometry the path data describes (SVG 1.1 section 8.3; structural comparison: %v)", c.S, pstr(p), dev, at, structural)
 		}
 		return
 	case "parse-svg":
@@ -499,6 +636,7 @@ func init() {
 			{Name: "print-arcs", Quick: 1000, Thorough: 30000, Gen: genC11Print("arcs")},
 			{Name: "print-shapes", Quick: 500, Thorough: 10000, Gen: genC11Print("shapes")},
 			{Name: "parse-path", Quick: 6000, Thorough: 200000, Gen: genC11ParsePath},
+			{Name: "parse-valid", Quick: 3000, Thorough: 100000, Gen: genC11ParseValid, Note: "valid path data with every command, implicit repetition and chains of smooth curves, decoded by an independent parser"},
 			{Name: "parse-svg", Quick: 3000, Thorough: 100000, Gen: genC11ParseSVG},
 		},
 		NewCase:      func() any { return &c11Case{} },
